@@ -80,6 +80,20 @@ THEOREMS = [
     'C10.gen_ecRead_reads_only',
     # round 5: last clause at the API level - dump under one configuration, load under another, every encoding
     'C10.system_dump_load_two_units_end_to_end',
+    # round 6 (second extender pass): the two-configuration statements with the unit factors' non-vanishing explicit
+    # (statement audit): what is read, EXPRESSED IN THE STORED UNIT under the reading configuration, is what was written
+    # expressed in it under the writing one, and the opposite rescaling returns the written numbers
+    'C10.inUnit_scaleFn', 'C10.scaleFn_back',
+    'C10.errorUnit_model_two_nz', 'C10.elastic_model_two_nz', 'C10.system_model_two_units_nz',
+    'C10.system_dump_load_two_units_end_to_end_nz', 'C10.elastic_model_normal_form_two_nz',
+    # round 6: the reader of ElasticConstants as the source has it (new format, old C / ij format when that raises):
+    # the old-format branch changes nothing on what the writer produces; what it makes of ANY old-format record;
+    # source tie of the branch (key expression, keys looked up, ElasticConstants(**c_dict) for every standard keyword
+    # set by partial evaluation of __init__ and the constructors = legacyForm)
+    'C10.ecReadAny_of_no_legacy_list', 'C10.elastic_model_roundtrip_any', 'C10.elastic_legacy_read',
+    'C10.elastic_legacy_read_cubic',
+    'C10.gen_legacyKey_eq_model', 'C10.gen_ecLegacy_keys_eq_model', 'C10.gen_legacyForm_eq_model',
+    'C10.gen_legacy_branches', 'C10.legacyForm_refuses_count',
 ]
 PARTIAL = {
     'length-1 vector through XML text': "uc.value_unit alone reads a shape-(1,) array back from XML text as a "
@@ -2818,6 +2832,178 @@ def correspond_fmt(ctx, n):
                                 f'dumpEncoding says {want!r}', {'line': line})
 
 
+# ---- records in the old `C` / `ij` format of ElasticConstants.model (round 6: the `except:` branch of the reader) ----
+LEGACY_UNITS = [None, 'GPa', 'GPa', 'eV/angstrom^3', 'MPa', 'J/m^3']
+LEGACY_CFGS = ['default', 'SI', 'nm-g-ps', 'metal-J', 'cm-eV']
+
+
+def gen_legacy(rng):
+    """a record as older atomman versions wrote it: one `{stiffness: value-with-unit, ij: 'i j'}` entry per named
+    constant of a standard representation, in any order; the stored numbers are multiples of 1/4 times a power of two."""
+    form = rng.choice(list(EC_KEYS))
+    scale = rng.choice([1.0, 12.5, 0.25]) * 2.0 ** rng.choice([0, 0, 0, 20, -20, 40, -40])
+    ents = []
+    for n in EC_KEYS[form]:
+        i, j = int(n[1]), int(n[2])
+        if i == j:
+            x = rng.randint(160, 800) / 4
+        elif j <= 3:
+            x = rng.randint(40, 140) / 4
+        else:
+            x = rng.randint(4, 32) / 4 * rng.choice([1, -1])
+        ents.append([n, x * scale])
+    mode = rng.choices(['ok', 'dup', 'missing', 'wrongname', 'short', 'nonpositive', 'extra'], [60, 12, 8, 6, 4, 4, 6])[0]
+    if mode == 'dup':
+        n, x = rng.choice(ents)
+        ents.insert(rng.randrange(len(ents) + 1), [n, x * rng.choice([2.0, 0.5, 1.25])])
+    elif mode == 'missing':
+        ents.pop(rng.randrange(len(ents)))
+    elif mode == 'wrongname':
+        ents[rng.randrange(len(ents))][0] = rng.choice(['C99', 'C21', 'C77', 'C65'])
+    elif mode == 'extra':
+        ents.append([rng.choice(['C99', 'C21', 'C54', 'C77']), 2.0 * scale])
+    elif mode == 'nonpositive':
+        ents = [[n, -abs(x)] for n, x in ents]
+    if mode != 'dup':
+        rng.shuffle(ents)
+    sep = rng.choice([' ', ' ', ' ', ',', '-'])
+    recs = [[n[1] + sep + n[2], x] for n, x in ents]
+    if mode == 'short':
+        recs[rng.randrange(len(recs))][0] = rng.choice(['12', '1', ''])
+    return {'form': form, 'mode': mode, 'entries': recs, 'unit': rng.choice(LEGACY_UNITS),
+            'via': rng.choice(['tree', 'json', 'xml']), 'w2': rng.choice(LEGACY_CFGS)}
+
+
+def _legacy_keys(case):
+    """the keyword dictionary the entries stand for (later entries overwrite), or None when a key cannot be formed."""
+    d = {}
+    for ij, x in case['entries']:
+        if len(ij) < 3:
+            return None
+        d['C' + ij[0] + ij[2]] = x
+    return d
+
+
+def run_legacy(case):
+    """the record is put together HERE (plain DataModelDict nodes), read by the real ElasticConstants(model=) under the
+    reading configuration.  -> (36 floats or None, error text, reading factor of the unit)"""
+    import atomman as am
+    from DataModelDict import DataModelDict as DM
+    rec = DM()
+    rec['elastic-constants'] = DM()
+    for ij, x in case['entries']:
+        c = DM()
+        c['stiffness'] = DM([('value', x)] + ([('unit', case['unit'])] if case['unit'] is not None else []))
+        c['ij'] = ij
+        rec['elastic-constants'].append('C', c)
+    arg = rec if case['via'] == 'tree' else (rec.json() if case['via'] == 'json' else rec.xml())
+    set_cfg(case['w2'])
+    fR = own_factor(case['unit']) if case['unit'] is not None else 1.0
+    try:
+        got = [float(v) for v in am.ElasticConstants(model=arg).Cij.flatten()]
+        return got, None, fR
+    except Exception as e:  # noqa: an exception of the implementation is an observation
+        return None, '%s: %s' % (type(e).__name__, str(e)[:80]), fR
+
+
+def legacy_line(case, fR):
+    u = case['unit']
+    ents = ' '.join('%s %s' % ((ij.replace(' ', SPACE) or '.'), cm.fr(x)) for ij, x in case['entries'])
+    return f"ecl {u.replace(' ', SPACE) if u is not None else '-'} 1/1 {cm.fr(fR)} {len(case['entries'])} {ents}"
+
+
+def _legacy_standard(case):
+    d = _legacy_keys(case)
+    return d is not None and any(sorted(d) == sorted(ks) for ks in EC_KEYS.values())
+
+
+def legacy_diffs(case, got, err, reply):
+    if reply.startswith('err:'):
+        return [f'model refused the request: {reply}']
+    want = json.loads(reply)['read']
+    if got is None and want is None:
+        return []
+    if want is None and not _legacy_standard(case):
+        return None        # a keyword set with redundant / alternative constants: outside the model
+    if got is None:
+        return [f'implementation raised ({err}); model reads {str(want)[:120]}']
+    if want is None:
+        return [f'model refuses the record; implementation read {got[:6]} ...']
+    wf = [float(Fraction(w[1:])) for w in want]
+    tol = 1e-12 * max(abs(w) for w in wf)
+    bad = [(i, g, w) for i, (g, w) in enumerate(zip(got, wf)) if not abs(g - w) <= tol]
+    return [f'Cij[{i // 6},{i % 6}] = {g!r} read, model {w!r}' for i, g, w in bad[:3]]
+
+
+def correspond_legacy(ctx, n):
+    """`ElasticConstants(model=<record in the old C / ij format>)` against the model's `ecReadAny` (op `ecl`)."""
+    rng = random.Random(ctx.seed * 7368787 + 29)
+    cases, lines, reals = [], [], []
+    try:
+        for _ in range(n):
+            case = gen_legacy(rng)
+            if any(ij == '' for ij, _ in case['entries']) and case['via'] == 'xml':
+                case['via'] = 'json'     # the XML text codec reads '' back as None (assumption 2)
+            got, err, fR = run_legacy(case)
+            cases.append(case)
+            reals.append((got, err))
+            lines.append(legacy_line(case, fR))
+    finally:
+        restore_units()
+    outside = 0
+    for case, (got, err), line, reply in zip(cases, reals, lines, ctx.driver.ask_many(lines)):
+        diffs = legacy_diffs(case, got, err, reply)
+        if diffs is None:
+            outside += 1
+            continue
+        ctx.stats.case(f"ecl:{case['via']}", line, nontrivial=case['mode'] in ('ok', 'dup'), sample=case['form'])
+        if diffs:
+            ctx.disagree(f"ecl:{case['via']}", f"ElasticConstants(model=<old C/ij record: {case['form']}, {case['mode']}>) via "
+                         f"{case['via']} read under {case['w2']}: " + '; '.join(diffs), {'legacy': case, 'line': line})
+    ctx.extra['legacy_outside_model'] = outside
+
+
+def oracle_legacy(ctx, case):
+    """clause `legacy record`: a record that names the constants of a standard representation (each once, or the last
+    of several entries of a constant) is read as that crystal - every constant in its place in the 6x6 array (written
+    out here from Nye's tables, `ec_form_matrix`), times the factor of the stored unit under the reading
+    configuration (evaluated here); anything else in the record's `C` list is refused."""
+    d = _legacy_keys(case)
+    form = None if d is None else next((f for f, ks in EC_KEYS.items() if sorted(ks) == sorted(d)), None)
+    got, err, fR = run_legacy(case)
+    key = f"ecl:{case['via']}:{case['form']}"
+    rp = {'legacy': case}
+    if form is None:
+        return                     # alternative / redundant keyword sets and malformed records: the tie only
+    want = [Fraction(x) * Fraction(fR) for row in ec_form_matrix(form, d) for x in row]
+    if max(want) <= 0:
+        if got is not None:      # the Cij setter's documented refusal (no positive entry in the 6x6 array)
+            ctx.violate(key + ':refusal', f'old-format record whose 6x6 array has no positive entry was read: {got[:3]} ...', rp)
+        return
+    if got is None:
+        ctx.violate(key + ':read-raises', f"old-format record of a {form} crystal ({case['mode']}), unit "
+                    f"{case['unit']!r}, via {case['via']}, read under {case['w2']}: {err}", rp)
+        return
+    tol = Fraction(1, 10 ** 12) * max(abs(w) for w in want)
+    for i, (g, w) in enumerate(zip(got, want)):
+        if not abs(Fraction(g) - w) <= tol:
+            ctx.violate(key, f"old-format record of a {form} crystal ({case['mode']}), unit {case['unit']!r}, via "
+                        f"{case['via']}, read under {case['w2']}: Cij[{i // 6},{i % 6}] = {g!r} read back, "
+                        f'{float(w)!r} stored', rp)
+            return
+
+
+def search_legacy(ctx, n):
+    rng = random.Random(ctx.seed * 2750159 + 31)
+    pending = [d.replay['legacy'] for d in ctx.disagreements if isinstance(d.replay, dict) and 'legacy' in d.replay]
+    try:
+        for case in pending + [gen_legacy(rng) for _ in range(n)]:
+            oracle_legacy(ctx, case)
+            ctx.stats.case(f"oracle:ecl:{case['via']}", json.dumps(case, sort_keys=True), nontrivial=case['mode'] in ('ok', 'dup'))
+    finally:
+        restore_units()
+
+
 def _writable(c, rr):
     """was the object of the case constructed (so that there is something to serialise and to ask the model about)?"""
     if c['kind'] == 'ec':
@@ -2832,6 +3018,7 @@ def correspond(ctx):
     N = ctx.n(1000, 12000)
     correspond_nest(ctx, ctx.n(150, 2000))
     correspond_fmt(ctx, ctx.n(120, 1000))
+    correspond_legacy(ctx, ctx.n(150, 1500))
     runs = []
     classes = {}
     outside = 0
@@ -3337,11 +3524,30 @@ def search(ctx, broken):
                            nontrivial=_nontrivial(case))
     finally:
         restore_units()
+    search_legacy(ctx, ctx.n(120, 1000) * (3 if broken else 1))
 
 
 def replay(ctx, payload):
     rp = payload.get('replay', {})
     cases = []
+    legacy = ([rp['legacy']] if 'legacy' in rp else []) + [d['legacy'] for d in payload.get('disagreements', []) or []
+                                                          if isinstance(d, dict) and 'legacy' in d]
+    if legacy:
+        try:
+            for case in legacy:
+                got, err, fR = run_legacy(case)
+                print('replay', json.dumps(case), '->', err if got is None else got)
+                if ctx.driver is not None:
+                    diffs = legacy_diffs(case, got, err, ctx.driver.ask(legacy_line(case, fR)))
+                    for d in diffs or []:
+                        print('  model/implementation:', d)
+                    if diffs:
+                        ctx.disagree(f"ecl:{case['via']}", '; '.join(diffs), {'legacy': case})
+                oracle_legacy(ctx, case)
+        finally:
+            restore_units()
+        if not ('case' in rp or any(isinstance(d, dict) and 'case' in d for d in payload.get('disagreements', []) or [])):
+            return
     if 'case' in rp:
         cases.append(rp['case'])
     for d in payload.get('disagreements', []) or []:
@@ -4239,6 +4445,48 @@ def _tr_elastic(tree):
     L.append(f'def ecKey : String := {_ls(s[1])}')
     L.append(f'def ecFind : String := {_ls(rroot)}')
     L.append(f'def ecReadKey : String := {_ls(_is_sub(val.args[0], "model")[1])}')
+    # the `except:` branch: records in the old `C` / `ij` format
+    hs = rd[1].handlers
+    _expect(len(hs) == 1 and hs[0].type is None and not rd[1].orelse and not rd[1].finalbody, 'ElasticConstants.model: except branch')
+    hb = [s for s in hs[0].body if not (isinstance(s, ast.Expr) and isinstance(s.value, ast.Constant))]
+    _expect(len(hb) == 3 and _u_(hb[0]) == 'c_dict = {}' and isinstance(hb[1], ast.For) and not hb[1].orelse
+            and _u_(hb[2]) == 'self.Cij = ElasticConstants(**c_dict).Cij', 'ElasticConstants.model: old-format branch '
+            + repr([_u_(s)[:50] for s in hb]))
+    lp = hb[1]
+    it = _is_sub(lp.iter, 'model')
+    _expect(it is not None and isinstance(lp.target, ast.Name) and len(lp.body) == 2, 'ElasticConstants.model: old-format loop')
+    cv = lp.target.id
+    tgt, val = _assign(lp.body[0])
+    _expect(isinstance(tgt, ast.Name), 'ElasticConstants.model: old-format key')
+    kv = tgt.id
+    parts = []
+    node = val
+    while isinstance(node, ast.BinOp) and isinstance(node.op, ast.Add):
+        parts.insert(0, node.right)
+        node = node.left
+    parts.insert(0, node)
+    _expect(len(parts) == 3 and isinstance(parts[0], ast.Constant) and isinstance(parts[0].value, str),
+            'ElasticConstants.model: old-format key expression ' + _u_(val))
+    idx = []
+    ikey = None
+    for q in parts[1:]:
+        _expect(isinstance(q, ast.Subscript) and isinstance(q.slice, ast.Constant) and isinstance(q.slice.value, int)
+                and q.slice.value >= 0 and _is_sub(q.value, cv) is not None, 'ElasticConstants.model: old-format index ' + _u_(q))
+        k = _is_sub(q.value, cv)[1]
+        _expect(ikey in (None, k), 'ElasticConstants.model: two index keys')
+        ikey = k
+        idx.append(q.slice.value)
+    tgt, val = _assign(lp.body[1])
+    _expect(_u_(tgt) == f'c_dict[{kv}]' and isinstance(val, ast.Call) and _u_(val.func) == 'uc.value_unit'
+            and len(val.args) == 1 and not val.keywords and _is_sub(val.args[0], cv) is not None,
+            'ElasticConstants.model: old-format value ' + _u_(lp.body[1]))
+    L.append('/-- the `except:` branch of the reader (records in the old format): `for C in model[…]`, the keyword '
+             '`prefix + C[index key][i] + C[index key][j]`, its value `uc.value_unit(C[value key])`. -/')
+    L.append(f'def ecLegacyListKey : String := {_ls(it[1])}')
+    L.append(f'def ecLegacyIndexKey : String := {_ls(ikey)}')
+    L.append(f'def ecLegacyValueKey : String := {_ls(_is_sub(val.args[0], cv)[1])}')
+    L.append(f'def ecLegacyPrefix : String := {_ls(parts[0].value)}')
+    L.append('def ecLegacyIndexChars : List Nat := ' + _llist(str(i) for i in idx))
     # Cij setter
     fs = _find_def(tree, 'Cij', 'ElasticConstants', 'Cij.setter')
     got = [_u_(s) for s in _body(fs)]
@@ -4334,6 +4582,29 @@ def _tr_elastic(tree):
             L.append(f'  else if cs = {_ls(cs)} then muK.map (fun mk => [\n      {rows}])')
         else:
             L.append(f'  else if cs = {_ls(cs)} then some [\n      {rows}]')
+    L.append('  else none')
+    # `ElasticConstants(**c_dict)` for the keyword sets of the standard representations (what a record in the old format
+    # holds): __init__'s dispatch and the constructor, by the same partial evaluator, over an accessor `g`
+    lbr = []
+    for form, ks in EC_KEYS.items():
+        kwd = {k: f'(g {_ls(k)})' for k in ks}
+        meth = _init_dispatch(sym, kwd)
+        env = {}
+        kw2 = dict(kwd)
+        sym.used = set()
+        sym.run(_body(sym.methods[meth]), env, kw2)
+        _expect('__Cij__' in env and not (set(kw2) - sym.used), f'{meth}: keywords not used {sorted(set(kw2) - sym.used)}')
+        lbr.append((ks, meth, env['__Cij__']))
+    L.append('/-- (keyword set, constructor `ElasticConstants(**c_dict)` dispatches to). -/')
+    L.append('def legacyBranches : List (List String × String) := '
+             + _llist(f'({_llist(_ls(k) for k in ks)}, {_ls(m)})' for ks, m, _ in lbr))
+    L.append('set_option linter.unusedVariables false in')
+    L.append('/-- the 36 entries `ElasticConstants(**c_dict)` hands to the `Cij` setter for each of these keyword sets, as '
+             'functions of the keyword values `g`. -/')
+    L.append('def legacyEntries (keys : List String) (g : String → K) : Option (List K) :=')
+    for n, (ks, meth, ent) in enumerate(lbr):
+        rows = ',\n      '.join(', '.join(ent[6 * i:6 * i + 6]) for i in range(6))
+        L.append(f'  {"if" if n == 0 else "else if"} keys = {_llist(_ls(k) for k in ks)} then some [\n      {rows}]')
     L.append('  else none')
     L.append('end')
     return L
